@@ -48,7 +48,11 @@ def strip_cast(t):
 
 
 def wrap24_of(t):
-    """X if t is `if X >= 24 { X % 24 } else { X }`"""
+    """X if t is `if X >= 24 { X % 24 } else { X }` or the unconditional `X % 24` (X is non-negative there)"""
+    if isinstance(t, tuple) and t and t[0] == 'bin' and t[1] == 'Rem' and const_f64(t[3]) == 24.0:
+        return t[2]
+    if isinstance(t, tuple) and t and t[0] == 'app' and t[1] == 'rem_euclid' and len(t[2]) == 2 and const_f64(t[2][1]) == 24.0:
+        return t[2][0]
     if isinstance(t, tuple) and t and t[0] == 'ite':
         c, a, b = t[1], t[2], t[3]
         if c[0] == 'bin' and c[1] == 'Ge' and const_f64(c[3]) == 24.0 and c[2] == b:
